@@ -58,6 +58,16 @@ def gen_spec(rng):
             spec["omap_f"] = None
         elif n_con and rng.random() < 0.2:
             spec["cmap_f"] = None
+    if not spec.get("estimators") and not spec.get("filters") and R >= 2 and rng.random() < 0.25:
+        # mixed-sign realization weights are valid as long as their sum is positive
+        w = np.array(spec["rweights"], dtype=float)
+        k = int(rng.integers(R))
+        w[k] = -w[k] * 0.5
+        if w.sum() > 0.3 * np.abs(w).sum() and w[k] != 0:
+            spec["rweights"] = w.tolist()
+    if rng.random() < 0.2:
+        # outputs with a large common offset (cumulative volumes, monetary values): the spread is what a standard deviation is about
+        spec["ensemble"]["offset"] = float(rng.choice([1e4, 1e6, 1e8]))
     spec["rmin"] = int(rng.integers(0, R + 1))
     nan = []
     if rng.random() < 0.45:
@@ -197,6 +207,12 @@ def expected_functions(obs, spec, cfg, res, objs, cons):
             # no realization with positive weight survived: the quantifier excludes this (C03/C14 territory)
             obs.count("no_positive_weight_survivor")
             return False
+        surv = np.where(failed, 0.0, wforce)
+        if surv.sum() <= 0.1 * np.abs(surv).sum():
+            obs.count("trivial.surviving_weights_cancel")
+            return False
+        if np.any(surv < 0):
+            obs.count("with_negative_realization_weight")
         w = models.norm_weights(wforce, failed)
         est = ests[emap[jj]] if emap is not None else ests[0]
         vals = allv[:, j]
@@ -213,7 +229,11 @@ def expected_functions(obs, spec, cfg, res, objs, cons):
     ok = True
     for j in range(n_obj + n_con):
         obs.count("values_compared")
-        if not abs(got[j] - want[j]) <= TOL * (1 + abs(want[j])):
+        # (rounding of the inputs themselves: a few ulp of the largest value that enters the estimate)
+        big = float(np.nanmax(np.abs(np.where(np.isnan(allv[:, j]), 0.0, allv[:, j])))) if allv.size else 0.0
+        if big > 1e3:
+            obs.count("values_with_large_common_offset_compared")
+        if not abs(got[j] - want[j]) <= TOL * (1 + abs(want[j])) + 256 * np.finfo(float).eps * big:
             obs.violation("function_value", function=j, got=float(got[j]), want=float(want[j]), failed=failed,
                           configured=configured, values=allv[:, j])
             ok = False
